@@ -25,13 +25,20 @@ RULE = ("seeded P-code generator (nested and sequential Block to depth 4, End bl
 ASSUMPTIONS = [
     "a block is active when lock_acquired and not block_ended (the lock flag is dropped one tick after End block)",
     "'innermost' / 'End block ends exactly the innermost active block' are read dynamically: whichever path (main "
-    "or interrupt) executes End block, the innermost active block at that instant is the one that must end",
-    "'instructions after a block' = later siblings of the Block line in the same scope",
-    "'together with its pending Watches and Alarms' = at every later tick end no Watch/Alarm inside the ended block is "
-    "registered, and no line below such a Watch/Alarm is executed (a bare started flag without execution is counted, "
-    "not judged)",
-    "the Block tag is compared at tick ends only; None and '' both mean empty",
-    "observation through data descriptors / method wrappers installed from the harness",
+    "or interrupt) executes End block, the innermost active block at that instant is the one that must end. "
+    "Exception, counted and not judged: an End block that ends nothing while a deeper block has ended but still "
+    "holds its lock flag (a second End block arriving within the one-tick lag of the first)",
+    "'instructions after a block' = later siblings of the Block line in the same scope; they may start only while "
+    "that block's block_ended flag is set",
+    "'together with its pending Watches and Alarms' = a Watch/Alarm inside the block that was registered when the "
+    "block ended is not registered at any later tick end, and no line below a Watch/Alarm of an ended block is "
+    "executed (a bare started flag without execution is counted, not judged). A Watch/Alarm whose line had started "
+    "before the end and which registers afterwards was not pending: counted, not judged",
+    "the Block tag is compared at tick ends only; None and '' both mean empty; it is also compared while the system "
+    "is Stopped / Restarting (no block is active then)",
+    "a block that acquires the lock although an enclosing block has already ended (its line had started before) is "
+    "not covered by the statement: counted (lock_acquired_inside_ended_block), not judged",
+    "observation through data descriptors / method wrappers installed from the harness (opv/rigs/interrupt_hooks.py)",
 ]
 REQUIRED = {"tick_end_checks": 40000, "ticks_with_active_block": 12000, "ticks_with_nested_active_blocks": 5000,
             "lock_acquisitions": 2000, "nested_lock_acquisitions": 1000, "end_block_checks": 1000,
